@@ -159,13 +159,20 @@ def run(chk):
     e.func_info(BM, "float.__new__")
     e.func_info(BM, "len")
     for name, dunder in (("int", "__int__"), ("float", "__float__"), ("len", "__len__")):
-        for kind in ("guppy", "plain"):
+        for kind in ("guppy", "guppy:Nat", "guppy:Int", "guppy:Float", "plain"):
             def t(it, name=name, dunder=dunder, kind=kind):
                 bm = e.module(BM)
                 log = []
                 GO = it.lookup_global(e.module(MOD), "GuppyObject")
                 e.ext_models[f"builtins.{name}"] = Builtin(f"builtins.{name}", lambda *a, **k: (log.append(("builtin", name, a)) or "BUILTIN"))
-                x = SObj(GO, {dunder: Builtin(dunder, lambda *a, **k: (log.append(("dunder", dunder, a)) or "DUNDER"))}) if kind == "guppy" else 42
+                x = SObj(GO, {dunder: Builtin(dunder, lambda *a, **k: (log.append(("dunder", dunder, a)) or "DUNDER"))}) if kind.startswith("guppy") else 42
+                if ":" in kind:
+                    # a traced value of a real numeric type: int() of a nat must still go through nat.__int__ (the
+                    # result is an int, with the signed operators), float() of an int through int.__float__
+                    NT = it.lookup_global(e.module("guppylang_internals.tys.ty"), "NumericType")
+                    x.fields["_ty"] = it.call(NT, [it.getattr(it.getattr(NT, "Kind"), kind.split(":")[1])], {})
+                elif kind == "guppy":
+                    x.fields["_ty"] = SObj(ClassVal("OpaqueTy", builtin=True), {})
                 f = it.lookup_global(bm, name)
                 if isinstance(f, ClassVal):
                     new, _ = f.lookup("__new__")
@@ -179,7 +186,10 @@ def run(chk):
                 if p.kind != "return":
                     return z3.BoolVal(False)
                 r, log = p.value
-                if kind == "guppy":
+                if kind.startswith("guppy"):
+                    same_kind = (name, kind) in (("int", "guppy:Int"), ("float", "guppy:Float"))
+                    if same_kind and log == []:
+                        return z3.BoolVal(isinstance(r, SObj) and r.cls.name == "GuppyObject")     # returning the value itself is the no-op conversion
                     return z3.BoolVal(r == "DUNDER" and log == [("dunder", dunder, ())])
                 return z3.BoolVal(r == "BUILTIN" and log == [("builtin", name, (42,))])
             chk.prove_paths(f"builtins_mock.{name}[{kind}]:GuppyObject->{dunder}();else->builtins.{name}", paths, post, func=f"{BM}:{name}")
